@@ -489,6 +489,29 @@ def flat_directory_collisions(prog, res):
     res.need(R, 7)
 
 
+def sparse_needs_seekable_stdout(prog, res):
+    """T3: the sparse writer skips zero runs with fseek(SEEK_CUR) and writes the last byte at the end; on a descriptor in
+    append mode the seek has no effect and the zeroes are lost with exit status 0.  FIO_openDstFile may hand out stdout with
+    sparse mode still enabled only after it queried the descriptor's flags (fcntl F_GETFL) - or on the edge where sparse mode
+    is off - and the query is followed by a site that turns sparse mode off."""
+    R = "T3.sparse-needs-seekable-stdout"
+    f = prog.fn("FIO_openDstFile")
+    rets = [(b, i) for b, i, r in f.returns() if r.get("e") is not None and strip_casts(r["e"]).get("n") == "stdout"]
+    res.check(len(rets) >= 1, R, "stdout-return", f.loc, "%d return(s) of stdout" % len(rets), "FIO_openDstFile no longer returns stdout")
+    q = [t for t in f.call_roots("fcntl") if any("F_GETFL" in (y.get("m") or []) or y.get("n") == "F_GETFL" for y in walk(f.blocks[t[0]]["el"][t[1]]))]
+    off = flag_edges(f, "sparseFileSupport", "false")
+    ok = bool(rets) and (bool(q) or bool(off)) and f.must_pass(via_roots=q, via_edges=off, targets=rets)
+    res.check(ok and bool(q), R, "flags-queried-before-sparse-stdout", f.loc, "stdout is returned with sparse mode on only after fcntl(F_GETFL)",
+              "FIO_openDstFile returns stdout with sparse mode enabled without looking at the descriptor's flags: `zstd -dc --sparse f.zst >> out` "
+              "drops every run of zeroes (the seeks have no effect in append mode) and exits 0")
+    clears = [(b, i) for b, i, x in f.events(lambda y: y.get("k") == "asg" and y.get("op") == "=" and strip_casts(y["lhs"]).get("k") == "mem"
+                                               and strip_casts(y["lhs"]).get("f") == "sparseFileSupport" and const_val(y["rhs"]) == 0)]
+    after = f.flow([(b, i + 1) for b, i in q]) if q else set()
+    res.check(any(c in after for c in clears), R, "append-mode-turns-sparse-off", f.loc, "a site after the query clears sparseFileSupport",
+              "FIO_openDstFile queries the descriptor's flags but nothing after the query turns sparse mode off")
+    res.need(R, 3)
+
+
 def run(tier):
     res = Result("C19", tier)
     tus, info = extract(["programs", "common", "compress", "decompress"])
@@ -507,6 +530,7 @@ def run(tier):
     pass_through_only_at_file_start(prog, res)
     shared_destination_on_failure(prog, res)
     flat_directory_collisions(prog, res)
+    sparse_needs_seekable_stdout(prog, res)
     return res.finish(
         explanation="Order-of-effects rules on the CFG of the CLI's file pipeline: the source is removed only on the path "
                     "where --rm is set, the destination stage returned 0 (work, clearHandler, close with its result "
